@@ -62,6 +62,35 @@ pub fn check_pair(l: &mut Local, a: &HV, b: &HV, s2: usize, rng: &mut Rng) {
             scores.push(("FuzzyHash::compare_unequal", guard(|| sa.compare_unequal(&sb))));
         }
     }
+    // mixed forms: a target built from the long form (block hash 2 up to 64 symbols) against a short
+    // hash and vice versa - only the side that is stored in the short type has to fit it
+    let mut equivs: Vec<(&'static str, Result<bool, String>)> = Vec::new();
+    equivs.push(("Target(Long)::is_equiv(Long)", guard(|| t_from.is_equiv(&lb))));
+    if nb.bh2.len() <= 32 {
+        let sb = FuzzyHash::build(&nb);
+        scores.push(("Target(From<&Long>)::compare(FuzzyHash) [mixed]", guard(|| t_from.compare(&sb))));
+        scores.push(("Target(init_from Long)::compare(FuzzyHash) [mixed]", guard(|| t_init.compare(&sb))));
+        equivs.push(("Target(Long)::is_equiv(FuzzyHash)", guard(|| t_from.is_equiv(&sb))));
+        if a.log == b.log {
+            scores.push(("Target(From<&Long>)::compare_near_eq(FuzzyHash) [mixed]", guard(|| t_from.compare_near_eq(&sb))));
+        }
+    }
+    if na.bh2.len() <= 32 {
+        let sa = FuzzyHash::build(&na);
+        let t_s = FuzzyHashCompareTarget::from(&sa);
+        scores.push(("Target(From<&FuzzyHash>)::compare(Long) [mixed]", guard(|| t_s.compare(&lb))));
+        scores.push(("Target(From<&FuzzyHash>)::compare(LongDual) [mixed]", guard(|| t_s.compare(&ldb))));
+        equivs.push(("Target(FuzzyHash)::is_equiv(Long)", guard(|| t_s.is_equiv(&lb))));
+    }
+    for (ep, res) in equivs {
+        l.eval(1);
+        match res {
+            Ok(e) => {
+                l.check(e == (na == nb), "is_equiv", || (sig(ep), format!("{} gave {} for {} vs {}", ep, e, a.text(), b.text())));
+            }
+            Err(p) => l.violation("totality", sig(ep), format!("{} panicked for {} vs {}: {}", ep, a.text(), b.text(), p)),
+        }
+    }
     // specialised entry points inside their documented preconditions
     let r = rel(a.log, b.log);
     let equiv = na == nb;
